@@ -5,14 +5,16 @@
  *   -DLAYOUT=0: n = FILL = 31 or 32 keys homed at BASE in BASE..BASE+n-1, the next slot free, nothing can be displaced
  *   -DLAYOUT=1: as 0 with n = 32, but slot BASE+20 holds a key homed at BASE+20: displacement makes room
  *   -DLAYOUT=2: as 1, and the insertion range beyond the window is occupied by keys homed in their own slots up to
- *               BASE+40: the free slot is found at distance 41, outside the window, and has to be moved inside it */
+ *               BASE+40: the free slot is found at distance 41, outside the window, and has to be moved inside it
+ *   -DLAYOUT=3: the window of BASE is occupied by foreign keys: 32 keys homed at BASE-24 fill BASE-24..BASE+7, keys homed in
+ *               their own slots fill BASE+8..BASE+32; the free slot BASE+33 is moved to BASE+8 by displacing that slot's key */
 #include "verif.h"
 #include <stdlib.h>
 #include <string.h>
 
 #define ORDER 7
 #define SIZE (1u << ORDER)
-#define NKEYS 48
+#define NKEYS 64
 static uint32_t H[NKEYS + 1];       /* abstract hash: home bucket of key k is H[k] (keys 1..NKEYS) */
 static inline uint32_t abs_hash32(uint32_t key, unsigned int order) { (void)order; return H[key <= NKEYS ? key : 0]; }
 static inline uint32_t abs_hash64(uint64_t key, unsigned int order) { (void)order; return H[0]; }
@@ -70,6 +72,10 @@ void harness_window(void)
 	n = FILL;                    /* 31 or 32, fixed per obligation (a symbolic fill level defeats constant propagation: no verdict in 15 min) */
 	for (uint32_t i = 0; i < 32; i++) if (i < n) place(i + 1, BASE, BASE + i);
 	residents = n;
+#elif LAYOUT == 3
+	for (uint32_t i = 0; i < 32; i++) place(i + 1, BASE - 24 + SIZE, BASE - 24 + SIZE + i);
+	for (uint32_t i = 8; i <= 32; i++) place(32 + i - 7, BASE + i, BASE + i);
+	residents = 57;
 #else
 	for (uint32_t i = 0; i < 32; i++) { if (i == 20) place(i + 1, BASE + 20, BASE + 20); else place(i + 1, BASE, BASE + i); }
 	residents = 32;
@@ -79,7 +85,7 @@ void harness_window(void)
 #endif
 #endif
 	CHECK(inv(), "META.constructed_table_satisfies_the_invariant");
-	const uint32_t K = 45;
+	const uint32_t K = 60;
 	H[K] = W(BASE);
 	struct value_T v, out;
 	v.vals[0] = &VALS[nd_range(0, NKEYS + 1)];
@@ -88,7 +94,7 @@ void harness_window(void)
 	CHECK(inv(), "C17.put_preserves_invariant");
 	CHECK(out.vals[0] == 0, "C17.put_no_previous_value_for_new_key");
 	/* every key that was stored is still found, with its value, through the real lookup */
-	for (uint32_t k = 1; k <= 41; k++) if (k <= residents) {
+	for (uint32_t k = 1; k <= 57; k++) if (k <= residents) {
 		struct value_T g; g.vals[0] = 0;
 		int gr = HASHTABLE_GET(T, TABLE, k, &g);
 		CHECK(gr == HASHTABLE_SUCCESS && g.vals[0] == &VALS[k], "C17.put_leaves_other_keys_alone");
